@@ -69,8 +69,8 @@ def run(ctx):
         ctx.violation(dict(kind="proof-obligation-broken", theorem_or_file=pr["broken"], bad_axioms=pr["bad_axioms"], log=pr["log"][-2000:]),
                       "proof obligation no longer checks: %s" % (pr["broken"] or pr["bad_axioms"]), found_input=False)
     known = [f for f in vlib.known_findings("C04") if f.get("status") == "open"]
-    scases, slive, sbad, scls = run_mode(ctx, "stroke", ctx.n(350, 12000), "judge")
-    ocases, olive, obad, ocls = run_mode(ctx, "offset", ctx.n(200, 6000), "judge_ox")
+    scases, slive, sbad, scls = run_mode(ctx, "stroke", ctx.n(350, 6000), "judge")
+    ocases, olive, obad, ocls = run_mode(ctx, "offset", ctx.n(200, 3000), "judge_ox")
     what = {4: "a point closer than w/2 - tol to the path is not filled", 8: "a point farther than w/2 + tol from the path and outside every join/cap zone is filled",
             16: "corner point not filled", 32: "clipped-miter corner beyond limit*w/2", 68: "a point closer than w/2 - tol is not filled (path has a segment shorter than w/2)",
             -1: "panic or hang"}
